@@ -578,18 +578,7 @@ func c16(c *core.Ctx) {
 				}) {
 					// ... and it IS normalised: some definition reaching here prepends the slash (the caller may
 					// pass "svc/method"); with the bare parameter as the only origin the interceptor is told the raw string
-					slashed := false
-					for _, o := range originsThroughCallers(p, fm, 0) {
-						parts := concatParts(core.ResolveFree(o))
-						if s0, ok0 := core.ConstString(parts[0]); ok0 && strings.HasPrefix(s0, "/") && len(parts) > 1 {
-							slashed = true
-						}
-						if sc, _, isCall := core.CallResult(o); isCall && core.InfoOf(&sc.Call).Is("fmt.Sprintf") {
-							if f, okF := core.ConstString(sc.Call.Args[0]); okF && strings.HasPrefix(f, "/") {
-								slashed = true
-							}
-						}
-					}
+					slashed := slashNormalised(p, fm)
 					if slashed {
 						okFM = true
 						why = "FullMethod is this call's method string (leading slash normalised)"
@@ -934,4 +923,20 @@ func originsThroughCallers(p *core.Prog, v ssa.Value, depth int) []ssa.Value {
 		}
 	}
 	return out
+}
+
+// slashNormalised: some definition reaching v prepends the leading slash (the
+// caller may pass "svc/method"); with the bare parameter as the only origin the
+// raw string is used.
+func slashNormalised(p *core.Prog, v ssa.Value) bool {
+	for _, o := range originsThroughCallers(p, v, 0) {
+		parts := concatParts(core.ResolveFree(o))
+		if s0, ok0 := core.ConstString(parts[0]); ok0 && strings.HasPrefix(s0, "/") && len(parts) > 1 {
+			return true
+		}
+		if f, args, ok := core.FormatOf(core.ResolveFree(o)); ok && len(args) > 0 && strings.HasPrefix(f, "/") {
+			return true
+		}
+	}
+	return false
 }
